@@ -143,4 +143,25 @@ theorem overlapComplaints_eq_nil (secs : List SecBuf) (base : Nat)
     rw [h i j a b hij hi hj] at ho; exact Bool.noConfusion ho
   | conflict s => exact absurd hc (conflict_not_mem_overlapComplaints secs base s)
 
+/-! ### the layout predicate `validate` is silent on -/
+
+/-- What the layout passes of a successful `save` establish (C04: `layout_disjoint`,
+    `member_equidistant`), in the form `validate` consumes it.  `validate` looks at *every* section
+    whose type is not SHT_NOBITS — including SHT_NULL-typed ones — with size > 0 and offset > 0. -/
+structure LayoutOk (o : Obj) : Prop where
+  /-- no 64-bit wrap-around in the file range of a section validate looks at -/
+  nowrap : ∀ s ∈ o.secs, s.stype ≠ BitVec.ofNat 32 SHT_NOBITS → 0 < s.size.toNat →
+    s.offset.toNat + s.size.toNat < 18446744073709551616
+  /-- file ranges of non-empty non-NOBITS sections with an offset are pairwise disjoint -/
+  disjoint : ∀ (i j : Nat) (a b : SecBuf), i < j → o.secs[i]? = some a → o.secs[j]? = some b →
+    a.stype ≠ BitVec.ofNat 32 SHT_NOBITS → b.stype ≠ BitVec.ofNat 32 SHT_NOBITS →
+    0 < a.size.toNat → 0 < b.size.toNat → 0 < a.offset.toNat → 0 < b.offset.toNat →
+    ¬ RangesIntersect a b
+  /-- a PROGBITS section containing the first file byte of a loadable segment is at the same
+      distance from the segment start in file and memory -/
+  equidistant : ∀ g ∈ o.segs, g.stype = BitVec.ofNat 32 PT_LOAD → 0 < g.filesz.toNat →
+    ∀ s ∈ o.secs, s.stype = BitVec.ofNat 32 SHT_PROGBITS →
+      s.offset.toNat ≤ g.offset.toNat → g.offset.toNat < s.offset.toNat + s.size.toNat →
+      s.addr + (g.offset - s.offset) = g.vaddr
+
 end ElfioVerif
